@@ -113,11 +113,17 @@ impl Mirror {
 
 pub fn run_history(run: &Run, opts: &Opts, ops: &[AbsOp], st: &mut Stats) -> Result<(), Failure> {
     let sb = Sandbox::new();
-    let mut it = match Interp::new(*opts, &sb) {
+    run_history_in(run, opts, ops, st, &sb)
+}
+
+/// As `run_history`, over a user directory prepared by the caller (byte-coded histories with user files, see oracle.rs).
+pub fn run_history_in(run: &Run, opts: &Opts, ops: &[AbsOp], st: &mut Stats, sb: &Sandbox) -> Result<(), Failure> {
+    let mut it = match Interp::new(*opts, sb) {
         Ok(it) => it,
         Err(_) => return Ok(()),
     };
-    let mut mirror = Mirror { ctx: None, sb: Sandbox::new() };
+    // the mirror lives over a copy of the user files as they are at the start (its own store from then on)
+    let mut mirror = Mirror { ctx: None, sb: sb.duplicate() };
     mirror.sync(opts);
     let opts0 = *opts;
     let mut trace: Vec<Ev> = vec![];
